@@ -882,4 +882,271 @@ theorem wtItems_mem : (s : Schema) → (vs : List Value) → wtItems s vs = true
       · exact wtItems_mem s ws h.2 v h'
 end
 
+/-! ### the integer a decimal payload denotes; minimality -/
+
+/-- unsigned value of big-endian digits -/
+def beU : List Nat → Int
+  | [] => 0
+  | b :: bs => (b : Int) * (256 : Int) ^ bs.length + beU bs
+
+def sgn (b : Nat) : Int := if b ≥ 128 then (b : Int) - 256 else (b : Int)
+
+theorem foldl_be (bs : List Nat) : ∀ a : Int,
+    bs.foldl (fun (a : Int) (x : Nat) => a * 256 + (x : Int)) a = a * (256 : Int) ^ bs.length + beU bs := by
+  induction bs with
+  | nil => intro a; simp [beU]
+  | cons b bs ih =>
+    intro a
+    rw [List.foldl_cons, ih, List.length_cons, Int.pow_succ]
+    have hU : beU (b :: bs) = (b : Int) * (256 : Int) ^ bs.length + beU bs := rfl
+    rw [hU]
+    generalize (256 : Int) ^ bs.length = P
+    generalize beU bs = U
+    grind
+
+theorem beSigned_cons (b : Nat) (bs : List Nat) :
+    beSigned (b :: bs) = sgn b * (256 : Int) ^ bs.length + beU bs := by
+  simp only [beSigned]
+  rw [foldl_be]; rfl
+
+theorem pow256_pos (n : Nat) : (0 : Int) < (256 : Int) ^ n := Int.pow_pos (by decide)
+
+theorem beU_bounds (bs : List Nat) (h : ∀ b ∈ bs, b < 256) : 0 ≤ beU bs ∧ beU bs < (256 : Int) ^ bs.length := by
+  induction bs with
+  | nil => simp [beU]
+  | cons b bs ih =>
+    have hb : b < 256 := h b (by simp)
+    obtain ⟨i1, i2⟩ := ih (fun x hx => h x (by simp [hx]))
+    have hU : beU (b :: bs) = (b : Int) * (256 : Int) ^ bs.length + beU bs := rfl
+    rw [hU, List.length_cons, Int.pow_succ]
+    have hP := pow256_pos bs.length
+    generalize (256 : Int) ^ bs.length = P at *
+    have h1 : (b : Int) * P ≤ 255 * P := Int.mul_le_mul_of_nonneg_right (by omega) (by omega)
+    have h0 : 0 ≤ (b : Int) * P := Int.mul_nonneg (by omega) (by omega)
+    constructor <;> omega
+
+theorem sgn_signOf (b : Nat) : sgn (signOf b) = if 128 ≤ b then -1 else 0 := by
+  unfold signOf sgn; split <;> simp
+
+/-- dropping a redundant sign byte does not change the value -/
+theorem beSigned_drop_sign (x : Nat) (t : List Nat) (_hx : x < 256) :
+    beSigned (signOf x :: x :: t) = beSigned (x :: t) := by
+  simp only [beSigned, List.foldl_cons]
+  congr 1
+  unfold signOf
+  by_cases h : 128 ≤ x <;> simp [h] <;> omega
+
+theorem beSigned_replicate (d x : Nat) (t : List Nat) (hx : x < 256) :
+    beSigned (List.replicate d (signOf x) ++ x :: t) = beSigned (x :: t) := by
+  induction d with
+  | zero => simp
+  | succ d ih =>
+    rw [List.replicate_succ, List.cons_append]
+    cases d with
+    | zero => simpa using beSigned_drop_sign x t hx
+    | succ d =>
+      rw [List.replicate_succ, List.cons_append] at ih ⊢
+      have hss : signOf (signOf x) = signOf x := signOf_signOf x
+      have hlt : signOf x < 256 := by rcases signOf_cases x with h | h <;> omega
+      have := beSigned_drop_sign (signOf x) (List.replicate d (signOf x) ++ x :: t) hlt
+      rw [hss] at this
+      rw [this, ih]
+
+/-- **the minimal payload denotes the same integer** -/
+theorem beSigned_minimal (be : List Nat) (hall : ∀ b ∈ be, b < 256) :
+    beSigned (minimalTwosComplement be) = beSigned be := by
+  cases be with
+  | nil => simp [minimalTwosComplement]
+  | cons b0 bs =>
+    obtain ⟨d, hm, hd, htake, h, t, hdrop, hs⟩ := minimal_shape b0 bs hall
+    have hh : h < 256 := hall h (List.mem_of_mem_drop (by rw [hdrop]; simp))
+    have hsplit : b0 :: bs = List.replicate d (signOf h) ++ h :: t := by
+      rw [hs, ← htake, ← hdrop, List.take_append_drop]
+    rw [hm, hdrop]
+    conv => rhs; rw [hsplit]
+    exact (beSigned_replicate d h t hh).symm
+
+/-- no leading byte can be dropped: a single byte, or a first byte that is not the sign byte
+belonging to the second -/
+def Reduced : List Nat → Prop
+  | h0 :: h1 :: _ => h0 ≠ signOf h1
+  | _ => True
+
+theorem minimal_reduced (be : List Nat) (hall : ∀ b ∈ be, b < 256) : Reduced (minimalTwosComplement be) := by
+  cases be with
+  | nil => simp [minimalTwosComplement, Reduced]
+  | cons b0 bs =>
+    have hb0 : b0 < 256 := hall b0 (by simp)
+    have hs : (if b0 &&& M_SIGN_MASK ≠ 0 then M_NEG_BYTE else M_POS_BYTE) = signOf b0 := by
+      unfold signOf
+      show (if b0 &&& 128 ≠ 0 then 255 else 0) = _
+      by_cases h : 128 ≤ b0
+      · have : ¬ (b0 &&& 128 = 0) := fun h0 => by have := (and128_zero_iff b0 hb0).1 h0; omega
+        simp [h, this]
+      · have : b0 &&& 128 = 0 := (and128_zero_iff b0 hb0).2 (by omega)
+        simp [h, this]
+    unfold minimalTwosComplement
+    simp only [hs]
+    generalize hk : countLeading (signOf b0) (b0 :: bs) = k
+    have hle := countLeading_le (signOf b0) (b0 :: bs)
+    rw [hk] at hle
+    -- a byte different from its own sign byte is never a sign byte at all
+    have notsign : ∀ x y : Nat, x ≠ signOf x → x ≠ signOf y := by
+      intro x y h1 h2
+      rcases signOf_cases y with h | h <;> rw [h] at h2 <;> subst h2 <;> simp [signOf] at h1
+    by_cases hk0 : k = 0
+    · rw [if_pos hk0]
+      cases bs with
+      | nil => simp [Reduced]
+      | cons b1 bs' =>
+        have : b0 ≠ signOf b0 := by
+          intro h
+          have hc : countLeading (signOf b0) (b0 :: b1 :: bs') = countLeading (signOf b0) (b1 :: bs') + 1 := by
+            conv => lhs; rw [countLeading]
+            rw [if_pos h]
+          omega
+        exact notsign b0 b1 this
+    · rw [if_neg hk0]
+      by_cases hkl : k = (b0 :: bs).length
+      · rw [if_pos hkl]
+        have hlen : (b0 :: bs).length - M_KEEP_ONE < (b0 :: bs).length := by simp [M_KEEP_ONE]
+        rw [List.drop_eq_getElem_cons hlen]
+        have : (b0 :: bs).length - M_KEEP_ONE + 1 = (b0 :: bs).length := by simp [M_KEEP_ONE]
+        rw [this, List.drop_length]
+        simp [Reduced]
+      · rw [if_neg hkl]
+        have hklt : k < (b0 :: bs).length := by omega
+        have hne := getD_countLeading_ne (signOf b0) (b0 :: bs) (by rw [hk]; exact hklt)
+        rw [hk, getD_eq _ _ hklt] at hne
+        have hxk : (b0 :: bs)[k] < 256 := hall _ (List.getElem_mem _)
+        have hmask : M_DROP_MASK = 128 := rfl
+        rw [hmask, getD_eq _ _ hklt]
+        by_cases hsame : ((b0 :: bs)[k] ^^^ signOf b0) &&& 128 = 0
+        · rw [if_pos hsame, List.drop_eq_getElem_cons hklt]
+          have hso := (same_sign_iff _ b0 hxk).1 hsame
+          cases hrest : (b0 :: bs).drop (k + 1) with
+          | nil => simp [Reduced]
+          | cons y ys =>
+            show (b0 :: bs)[k] ≠ signOf y
+            exact notsign _ y (by rw [hso]; exact hne)
+        · rw [if_neg hsame]
+          have hk1 : k - 1 < (b0 :: bs).length := by omega
+          rw [List.drop_eq_getElem_cons hk1]
+          have hkk : k - 1 + 1 = k := by omega
+          rw [hkk, List.drop_eq_getElem_cons hklt]
+          show (b0 :: bs)[k - 1] ≠ signOf (b0 :: bs)[k]
+          have ht := take_le_countLeading (signOf b0) (b0 :: bs) k (by rw [hk]; exact Nat.le_refl _)
+          have hmem : (b0 :: bs)[k - 1] ∈ (b0 :: bs).take k := by
+            rw [List.mem_take_iff_getElem]
+            exact ⟨k - 1, by omega, rfl⟩
+          rw [ht] at hmem
+          rw [List.eq_of_mem_replicate hmem]
+          intro hcontra
+          exact hsame ((same_sign_iff _ b0 hxk).2 hcontra.symm)
+
+theorem sgn_bounds (b : Nat) (h : b < 256) : -128 ≤ sgn b ∧ sgn b ≤ 127 := by
+  unfold sgn; split <;> constructor <;> omega
+
+/-- an `L+1`-byte two's-complement string denotes a value in `[-128·256^L, 128·256^L)` -/
+theorem beSigned_range (b : Nat) (bs : List Nat) (h : ∀ x ∈ b :: bs, x < 256) :
+    -(128 * (256 : Int) ^ bs.length) ≤ beSigned (b :: bs) ∧ beSigned (b :: bs) < 128 * (256 : Int) ^ bs.length := by
+  rw [beSigned_cons]
+  obtain ⟨u0, u1⟩ := beU_bounds bs (fun x hx => h x (by simp [hx]))
+  obtain ⟨s0, s1⟩ := sgn_bounds b (h b (by simp))
+  have hP := pow256_pos bs.length
+  generalize (256 : Int) ^ bs.length = P at *
+  have h1 : (-128) * P ≤ sgn b * P := Int.mul_le_mul_of_nonneg_right s0 (by omega)
+  have h2 : sgn b * P ≤ 127 * P := Int.mul_le_mul_of_nonneg_right s1 (by omega)
+  constructor <;> omega
+
+/-- a reduced string of `T+2` bytes denotes a value that does not fit `T+1` bytes -/
+theorem reduced_out_of_range (h0 h1 : Nat) (t : List Nat) (hall : ∀ x ∈ h0 :: h1 :: t, x < 256)
+    (hr : Reduced (h0 :: h1 :: t)) :
+    128 * (256 : Int) ^ t.length ≤ beSigned (h0 :: h1 :: t) ∨ beSigned (h0 :: h1 :: t) < -(128 * (256 : Int) ^ t.length) := by
+  have hh0 : h0 < 256 := hall h0 (by simp)
+  have hh1 : h1 < 256 := hall h1 (by simp)
+  rw [beSigned_cons]
+  have hU : beU (h1 :: t) = (h1 : Int) * (256 : Int) ^ t.length + beU t := rfl
+  rw [hU, List.length_cons, Int.pow_succ]
+  obtain ⟨u0, u1⟩ := beU_bounds t (fun x hx => hall x (by simp [hx]))
+  have hP := pow256_pos t.length
+  generalize (256 : Int) ^ t.length = P at *
+  generalize beU t = U at *
+  have hr' : h0 ≠ signOf h1 := hr
+  have m0 : 0 ≤ (h1 : Int) * P := Int.mul_nonneg (by omega) (by omega)
+  have m1 : (h1 : Int) * P ≤ 255 * P := Int.mul_le_mul_of_nonneg_right (by omega) (by omega)
+  unfold sgn
+  by_cases hneg : h0 ≥ 128
+  · right
+    rw [if_pos hneg]
+    by_cases h255 : h0 = 255
+    · -- the sign byte is needed: the next byte is positive
+      have hh : h1 < 128 := by
+        by_cases hc : 128 ≤ h1
+        · exact absurd (by simp [signOf, hc, h255]) hr'
+        · omega
+      have m2 : (h1 : Int) * P ≤ 127 * P := Int.mul_le_mul_of_nonneg_right (by omega) (by omega)
+      have e : ((h0 : Int) - 256) * (P * 256) = -(256 * P) := by rw [h255]; grind
+      omega
+    · have e : ((h0 : Int) - 256) * (P * 256) ≤ (-2) * (P * 256) :=
+        Int.mul_le_mul_of_nonneg_right (by omega) (by omega)
+      omega
+  · left
+    rw [if_neg hneg]
+    by_cases h00 : h0 = 0
+    · have hh : 128 ≤ h1 := by
+        by_cases hc : 128 ≤ h1
+        · exact hc
+        · exact absurd (by simp [signOf, hc, h00]) hr'
+      have m2 : 128 * P ≤ (h1 : Int) * P := Int.mul_le_mul_of_nonneg_right (by omega) (by omega)
+      have e : (h0 : Int) * (P * 256) = 0 := by rw [h00]; simp
+      omega
+    · have e : 1 * (P * 256) ≤ (h0 : Int) * (P * 256) :=
+        Int.mul_le_mul_of_nonneg_right (by omega) (by omega)
+      omega
+
+theorem pow256_mono {a b : Nat} (h : a ≤ b) : (256 : Int) ^ a ≤ (256 : Int) ^ b := by
+  obtain ⟨k, rfl⟩ := Nat.exists_eq_add_of_le h
+  rw [Int.pow_add]
+  have h1 := pow256_pos a
+  have h2 := pow256_pos k
+  have : (256 : Int) ^ a * 1 ≤ (256 : Int) ^ a * (256 : Int) ^ k := Int.mul_le_mul_of_nonneg_left (by omega) (by omega)
+  simpa using this
+
+/-- **the writer's payload is the shortest two's-complement encoding** (Avro spec: "the
+two's-complement representation of the unscaled integer value in big-endian byte order" —
+minimal, as every other implementation writes it): no byte string denoting the same integer is
+shorter. -/
+theorem minimal_is_shortest (be bs : List Nat) (hbe : ∀ b ∈ be, b < 256) (hbs : ∀ b ∈ bs, b < 256)
+    (hne : bs ≠ []) (hne' : be ≠ []) (hv : beSigned bs = beSigned be) :
+    (minimalTwosComplement be).length ≤ bs.length := by
+  have hval := beSigned_minimal be hbe
+  have hred := minimal_reduced be hbe
+  have hmb : ∀ b ∈ minimalTwosComplement be, b < 256 := by
+    cases be with
+    | nil => exact absurd rfl hne'
+    | cons b0 bs0 =>
+      obtain ⟨d, hm, _, _, _⟩ := minimal_shape b0 bs0 hbe
+      intro b hb; rw [hm] at hb; exact hbe b (List.mem_of_mem_drop hb)
+  generalize minimalTwosComplement be = m at *
+  cases m with
+  | nil => simp
+  | cons h0 m1 =>
+    cases m1 with
+    | nil => cases bs with
+      | nil => exact absurd rfl hne
+      | cons _ _ => simp
+    | cons h1 t =>
+      cases bs with
+      | nil => exact absurd rfl hne
+      | cons c cs =>
+        -- if `c :: cs` were shorter, its value would fit `t.length + 1` bytes
+        refine Nat.le_of_not_lt (fun hlt => ?_)
+        simp only [List.length_cons] at hlt
+        have hcs : cs.length ≤ t.length := by omega
+        obtain ⟨r0, r1⟩ := beSigned_range c cs hbs
+        have hmono := pow256_mono hcs
+        have hout := reduced_out_of_range h0 h1 t hmb hred
+        rw [hv, ← hval] at r0 r1
+        rcases hout with h | h <;> omega
 end ArrowModel.C17.Avro
